@@ -122,6 +122,8 @@ impl<'a> Sess<'a> {
             "adduser" => self.ls.exec("HarperAddToUserDict", json!(["harperish", url])),
             "addfile" => self.ls.exec("HarperAddToFileDict", json!(["harperish", url])),
             "config" => self.ls.did_change_configuration(),
+            // a pull-model client: the notification carries no settings, the server has to ask
+            "confignull" => self.ls.submit("workspace/didChangeConfiguration", json!({"settings": null}), false),
             "delete" => self.ls.submit("workspace/didChangeWatchedFiles", json!({"changes": [{"uri": url, "type": 3}]}), false),
             // the directory that holds the session's files is reported deleted (with or without a trailing slash)
             "deletedir" | "deletedir/" => {
@@ -254,6 +256,14 @@ pub fn main(a: &Args) {
             for c in ["c3", "c1", "c2"] {
                 run(&[m("open", u, "A"), m("silentcfg", u, c), m("change", u, "B"), m("config", u, c)], &[], &[], &[], &mut out);
                 run(&[m("open", u, "A"), m("open", (u + 1) % 2, "C"), m("silentcfg", u, c), m("change", (u + 1) % 2, "D"), m("config", u, c), m("change", u, "B")], &[], &[], &[], &mut out);
+            }
+        }
+        // (1g') the same with a pull-model client: the settings change on the client's side and are announced by a
+        // notification that carries none (`settings: null`)
+        for u in [0usize, 1, 3] {
+            for c in ["c3", "c1", "c2"] {
+                run(&[m("open", u, "A"), m("silentcfg", u, c), m("confignull", u, "")], &[], &[], &[], &mut out);
+                run(&[m("open", u, "A"), m("open", (u + 1) % 2, "C"), m("silentcfg", u, c), m("confignull", u, ""), m("change", u, "B"), m("silentcfg", u, "c0"), m("confignull", u, "")], &[], &[], &[], &mut out);
             }
         }
         // (1h) the directory of the documents is deleted: every document in it ends with empty diagnostics, the untitled one keeps its own
